@@ -1072,6 +1072,29 @@ pub fn c14_packet(c: &mut Ctx, r: &mut Rng, fam: Fam, rp: &RP, case: &Case) {
                 }
             }
         }
+        // a single transient Interrupted on the asynchronous sink (round 9+3, `seeded/S05`): surfaced as an
+        // I/O error of that kind after a prefix (what tokio's write_all does), or retried to completion
+        // with exactly the correct bytes — never success or failure with re-sent bytes in the sink
+        {
+            c.eval();
+            let mut w = ScriptedWriter::new(&[]).with_fault(p, WFault::InterruptedOnce);
+            w.default_accept = *r.pick(&[1usize, 3, usize::MAX]);
+            match guard(|| enc_async_pub(&lib, &mut w, enc.len() * 2 + 16)) {
+                Ok(Ok(Ok(_))) if w.got == enc => {
+                    c.count("async-interrupted-retried");
+                }
+                Ok(Ok(Err(e))) if e.io_kind() == Some(io::ErrorKind::Interrupted) && w.got.len() <= p && enc.starts_with(&w.got) => {
+                    c.count("async-interrupted-surfaced");
+                }
+                Ok(Ok(other)) => c.violation(
+                    format!("C14:v{}:{}:encode_async:interrupted", f, t),
+                    format!("one transient Interrupted after {} bytes: encode_async returned {:?}; sink holds {} bytes, encoding has {} (prefix: {})", p, other, w.got.len(), enc.len(), enc.starts_with(&w.got)),
+                    case.clone().p("fault_pos", p).p("wfault", "InterruptedOnce"),
+                ),
+                Ok(Err(e)) => c.violation(format!("C14:v{}:{}:encode_async:stuck", f, t), format!("{:?}", e), case.clone().p("fault_pos", p).p("wfault", "InterruptedOnce")),
+                Err(pm) => c.violation(format!("C14:v{}:{}:encode_async:panic:{}", f, t, panic_sig(&pm)), format!("encode_async panicked: {}", pm), case.clone().p("fault_pos", p).p("wfault", "InterruptedOnce")),
+            }
+        }
         // a single transient Interrupted on a synchronous sink: either retried to completion (what
         // std::io::Write::write_all does) or surfaced as an I/O error of that kind after a prefix
         if p < enc.len() - hdr {
